@@ -15,9 +15,9 @@ MANIFEST = {
             'encoding a below 2^10 (binary class and generic class at p=2), 3^6, 5^4, 7^3 the Ben-Or test equals the brute-force '
             'test "degree >= 1 and no divisor of degree 1..deg-1" computed inside Coq by trial division; for a < 2^10 '
             'binary next_irreducible returns the least irreducible above its argument and find_irreducible(2,d), d<=12, the least of degree d; for the generic class the statement '
-            '"next_irreducible returns the least irreducible above a" is REFUTED in Coq (next_irred_generic_refuted, witness '
-            'p=3, a=0: the model returns X+1 although X is irreducible), replayed on the implementation = finding F-C24-1; the '
-            'restriction to arguments >= p (X no longer a candidate) is proved for a below 2^9, 3^5, 5^4, 7^3, and that every a < p yields X+1 for p in {3,5,7,11,13}. Every run compares '
+            '"next_irreducible returns the least monic irreducible above a" is proved for every a below 2^9, 3^5, 5^4, 7^3 (generic '
+            'class; X included since the repair of finding F-C24-1, which the check had demonstrated with p=3, a=0) and for a < 2^10 '
+            '(binary class); find_irreducible likewise, d = 1 included. Every run compares '
             'model and implementation exactly on all polynomials below 2^12 (both classes), 3^6, 5^4, 7^3 and checks the '
             'implementation against a brute-force sieve, including finfields.GF acceptance.',
     'note': 'Trusted: Coq kernel + vm_compute; the models in Irred.v/Gfpx.v/Gf2x.v tied by exact comparison. NOT proved for '
@@ -229,11 +229,11 @@ def run(ctx):
             rexprs.append('[cb (is_irreducible %d (from_int %d %d))]' % (p, p, a))
             rexpect.append([int(got)])
             rmeta.append({'p': p, 'a': a, 'op': 'is_irreducible', 'kind': kind})
-    # ---- replay of the Coq refutation witness on the implementation
+    # ---- the historical failing input of finding F-C24-1 (X skipped for odd p)
     P3 = gfpx.GFpX(3)
     if P3.is_irreducible(P3(3)) and int(P3.next_irreducible(P3(0))) != 3:
         ctx.violation('next_irreducible-skips-X p=3 a=0', {'p': 3, 'a': 0, 'got': int(P3.next_irreducible(P3(0))), 'want': 3,
-                                                          'note': 'witness of Irred.next_irred_generic_refuted'})
+                                                          'note': 'X is irreducible and must be returned for a < p'})
     # ---- model evaluation
     if ok:
         allx, allw, allm = exprs + rexprs, expect + rexpect, meta + rmeta
